@@ -195,6 +195,94 @@ fn c03_extra(case: &Case, history: &[Call], out: &RunOut) -> Result<(), (&'stati
     Ok(())
 }
 
+mod flat {
+    //! A trait with the flattened mock api (`api=[..]`: one mock type per method, named freely):
+    //! the failure lines name the *method*, as for every other trait.
+    use unimock::*;
+
+    #[unimock(api = [LoadUser, StoreUser])]
+    pub trait UserRepo {
+        fn load(&self, id: u8) -> u32;
+        fn store(&self, id: u8) -> u32;
+    }
+
+    /// (label, expected lines, observed verdict)
+    pub fn cells() -> Vec<(String, Vec<String>, Result<(), String>)> {
+        let mut out = vec![];
+        for quant in 0..3usize {
+            for calls in 0..3usize {
+                let line = line!() + 2;
+                let clause = match quant {
+                    0 => DynClauseBox::new(LoadUser.each_call(matching!(_)).returns(1u32)),
+                    1 => DynClauseBox::new(LoadUser.each_call(matching!(_)).returns(1u32).n_times(2)),
+                    _ => DynClauseBox::new(LoadUser.each_call(matching!(_)).returns(1u32).at_least_times(2)),
+                };
+                // (all three matching! invocations above: the line of the one in use)
+                let pat_line = line + quant as u32;
+                let u = Unimock::new((clause.0, StoreUser.each_call(matching!(_)).returns(2u32)));
+                for _ in 0..calls {
+                    let _ = u.load(0);
+                }
+                let _ = u.store(0);
+                let mut want = vec![];
+                let kind = match quant {
+                    1 => Some(("exactly", calls != 2)),
+                    2 => Some(("at least", calls < 2)),
+                    _ => None,
+                };
+                if let Some((kind, true)) = kind {
+                    let n = |k: usize| match k {
+                        0 => "no calls".to_string(),
+                        1 => "1 call".to_string(),
+                        k => format!("{k} calls"),
+                    };
+                    want.push(format!(
+                        "UserRepo::load: Expected UserRepo::load(_) at {}:{pat_line} to match {kind} 2 calls, but it actually matched {}.",
+                        file!(),
+                        n(calls)
+                    ));
+                }
+                if calls == 0 {
+                    want.push("Mock for UserRepo::load was never called. Dead mocks should be removed.".to_string());
+                }
+                let verdict = vh::obs::catch(move || drop(u));
+                out.push((format!("flat-api/quantifier{quant}/calls{calls}"), want, verdict));
+            }
+        }
+        out
+    }
+
+    pub struct DynClauseBox(pub unimock::verif::DynClause);
+    impl DynClauseBox {
+        pub fn new(c: impl Clause + 'static) -> Self {
+            let mut d = unimock::verif::DynClause::new();
+            d.push(c);
+            DynClauseBox(d)
+        }
+    }
+}
+
+fn flat_api_cells(ctx: &vh::explore::Ctx, stats: &mut Stats) {
+    for (label, mut want, verdict) in flat::cells() {
+        ctx.tick();
+        stats.add("flat_api_cells", 1);
+        stats.add("traces_validated_against_impl", 1);
+        let mut got: Vec<String> = match &verdict {
+            Ok(()) => vec![],
+            Err(msg) => msg.lines().map(|l| l.to_string()).collect(),
+        };
+        want.sort();
+        got.sort();
+        if want != got {
+            ctx.violation(
+                &format!("{label}:verdict"),
+                &format!("{label}: verification lines differ: expected {want:?}, observed {got:?}"),
+                J::obj().set("flat_api_cell", label.as_str()),
+            );
+        }
+    }
+}
+
 fn main() {
     vh::obs::silence_panics();
     let ctx: &'static vh::explore::Ctx = Box::leak(Box::new(vh::explore::Ctx::from_args("C03")));
@@ -265,6 +353,37 @@ fn main() {
             }
         }
     }
+    // patterns on a method that has a default body / a real function / both: an expectation on such
+    // a method is an expectation like any other (a clause that is never hit is a dead mock)
+    for m in [M::Def, M::Unm, M::Both] {
+        for mask in [7u8, 1u8] {
+            for (label, entry, segs) in qforms(300, !quick) {
+                if label.starts_with("lending") {
+                    continue;
+                }
+                let c = ClauseSpec::Single {
+                    m,
+                    entry,
+                    pat: PatSpec { mask, segs },
+                };
+                for with_a in [false, true] {
+                    let mut clauses = vec![];
+                    if with_a {
+                        clauses.push(pattern_specs(false, 0)[0].1.clone());
+                    }
+                    clauses.push(c.clone());
+                    cases.push(Case {
+                        label: format!("{}[{mask}]{label}{}", m.name(), if with_a { "+a" } else { "" }),
+                        config: Config { partial: false, clauses },
+                        histories: HistGen::All {
+                            alphabet: vec![Call::new(m, 0), Call::new(M::A, 0)],
+                            depth: if quick { 3 } else { 4 },
+                        },
+                    });
+                }
+            }
+        }
+    }
     // ordered clauses with n_times(0..2), next to an unordered pattern
     let ord_alphabet = vec![Call::new(M::A, 0), Call::new(M::C, 0), Call::new(M::E, 0)];
     // (the first ordered clause: a single exact count, the implicit once, or a chain whose
@@ -315,7 +434,8 @@ fn main() {
     }
 
     ctx.watchdog(120, || J::Str("no progress in the C03 explorer".into()));
-    let stats = explore_cases(ctx, &cases, opts, &c03_extra);
+    let mut stats = explore_cases(ctx, &cases, opts, &c03_extra);
+    flat_api_cells(ctx, &mut stats);
     guard(&stats, 3, false);
     if stats.get("verdicts_silent") == 0 || stats.get("verdicts_failed") == 0 {
         vacuous("vacuous: verdicts never differed");
